@@ -31,7 +31,7 @@ SHARD_TIMEOUT = {"quick": 200, "thorough": 3000}
 
 
 def plan(tier, seed):
-    n = 2 if tier == "quick" else 30
+    n = 4 if tier == "quick" else 30
     return [dict(seed=seed, shard=i, n=n) for i in range(8)]
 
 
